@@ -27,7 +27,9 @@ use std::collections::{BTreeMap, BTreeSet};
 use std::panic::{catch_unwind, AssertUnwindSafe};
 use stellar_access::access_control as ac;
 
-pub const NR: usize = 4;
+/// four named roles used by the guard probes plus one whose name is the EMPTY symbol (the library uses the empty symbol as
+/// the "no admin role" placeholder of its role_admin_changed event; a real role of that name must stay an ordinary role)
+pub const NR: usize = 5;
 /// named accounts; index NA is an extra outsider that is never a grant target
 pub const NA: usize = 5;
 
@@ -198,6 +200,9 @@ pub enum Op {
     RemoveRoleCount { role: RSel, by: Who, auth: AuthMode },
     /// grant_role (revoke_role when `revoke`) on a state-relatively selected role: the follow-up of the clean-up ops
     GrantSel { role: RSel, account: u16, revoke: bool, caller: Who, auth: AuthMode },
+    /// harness Acl only: `#[only_admin] seed_role(role, accounts)` -> `grant_role_no_auth` for every listed account (the list
+    /// may name an account twice or name a current member)
+    SeedRole { role: u8, accounts: Vec<u16>, by: Who, auth: AuthMode },
 }
 
 #[derive(Clone, Debug, Serialize, Deserialize)]
@@ -283,6 +288,15 @@ fn lowlevel_ops() -> BoxedStrategy<Op> {
         // the role is granted again after its counter was removed
         2 => (s().prop_map(RSel::CounterRemoved), s(), mostly_admin(), auth_strategy(12))
             .prop_map(|(role, account, caller, auth)| Op::GrantSel { role, account, revoke: false, caller, auth }),
+        // batch grant through the low-level function, duplicates and current members included
+        3 => (0u8..NR as u8, proptest::collection::vec(prop_oneof![3 => s(), 1 => Just(0u16), 1 => Just(u16::MAX)], 1..5), any::<bool>(), mostly_admin(), auth_strategy(12))
+            .prop_map(|(role, mut accounts, dup, by, auth)| {
+                if dup {
+                    let x = accounts[0];
+                    accounts.push(x);
+                }
+                Op::SeedRole { role, accounts, by, auth }
+            }),
         // the last member is revoked: the counter stays behind at zero
         3 => (s().prop_map(RSel::SingleMember), s(), mostly_admin(), auth_strategy(12))
             .prop_map(|(role, account, caller, auth)| Op::GrantSel { role, account, revoke: true, caller, auth }),
@@ -384,8 +398,8 @@ fn strategy_for(target: Target, tier: Tier) -> BoxedStrategy<Case> {
 
 // ------------------------------------------------------------------ world, model, dump
 
-const ACL_ROLES: [&str; NR] = ["r0", "r1", "r2", "r3"];
-const NFT_ROLES: [&str; NR] = ["other", "minter", "burner", "madmin"];
+const ACL_ROLES: [&str; NR] = ["r0", "r1", "r2", "r3", ""];
+const NFT_ROLES: [&str; NR] = ["other", "minter", "burner", "madmin", ""];
 
 pub struct World {
     pub e: Env,
@@ -810,7 +824,7 @@ pub fn run(case: &Case, ctx: &mut Ctx) -> R {
 
     for (step, op) in ops.iter().enumerate() {
         let in_setup = step < n_setup;
-        if matches!(op, Op::RemoveRoleAdmin { .. } | Op::RemoveRoleCount { .. } | Op::GrantSel { .. }) && case.target != Target::Acl {
+        if matches!(op, Op::RemoveRoleAdmin { .. } | Op::RemoveRoleCount { .. } | Op::GrantSel { .. } | Op::SeedRole { .. }) && case.target != Target::Acl {
             continue; // only the harness Acl exposes the clean-up entry points
         }
         // GrantSel is an ordinary grant / revoke on a role chosen relative to the model
@@ -845,6 +859,7 @@ pub fn run(case: &Case, ctx: &mut Ctx) -> R {
             Probe(Option<(u32, Option<usize>)>),
             RemoveRoleAdmin(usize),
             RemoveRoleCount(usize),
+            Seed(usize, Vec<usize>),
         }
         let mut touched_role: Option<usize> = None;
         let mut touched_acct: Option<usize> = None;
@@ -857,6 +872,13 @@ pub fn run(case: &Case, ctx: &mut Ctx) -> R {
                 touched_role = Some(r);
                 let f = if matches!(op, Op::RemoveRoleAdmin { .. }) { "remove_role_admin" } else { "remove_role_count" };
                 (Call { func: f, args: vec![w.roles[r].clone().into_val(e)], signers: vec![addr(s)] }, auth, f)
+            }
+            Op::SeedRole { role, by, auth, accounts } => {
+                let r = ridx(role);
+                let s = resolve(&m, by, Some(r));
+                touched_role = Some(r);
+                let list: soroban_sdk::Vec<Address> = soroban_sdk::Vec::from_iter(e, accounts.iter().map(|a| addr(pick(*a, NA))));
+                (Call { func: "seed_role", args: vec![w.roles[r].clone().into_val(e), list.into_val(e)], signers: vec![addr(s)] }, auth, "seed_role")
             }
             Op::Grant { role, account, caller, auth, .. } => {
                 if nr == 0 {
@@ -1042,6 +1064,11 @@ pub fn run(case: &Case, ctx: &mut Ctx) -> R {
                 let okc = admin_authd && m.count_entry[r] && m.members[r].is_empty();
                 (Pred { may: admin_authd, must: Some(okc) }, Effect::RemoveRoleCount(r))
             }
+            Op::SeedRole { accounts, .. } => {
+                // #[only_admin]; the low-level grant itself is documented to skip accounts that already hold the role
+                let r = touched_role.unwrap();
+                (Pred { may: admin_authd, must: Some(admin_authd) }, Effect::Seed(r, accounts.iter().map(|a| pick(*a, NA)).collect()))
+            }
             Op::Advance { .. } | Op::GrantSel { .. } => unreachable!(),
         };
         if case.target == Target::Nft && cl.func == "mint" {
@@ -1076,7 +1103,7 @@ pub fn run(case: &Case, ctx: &mut Ctx) -> R {
             }
         }
         if ok && !pred.may {
-            let clause = if m.renounced && matches!(op, Op::SetRoleAdmin { .. } | Op::TransferAdmin { .. } | Op::AcceptAdmin { .. } | Op::RenounceAdmin { .. } | Op::RemoveRoleAdmin { .. } | Op::RemoveRoleCount { .. })
+            let clause = if m.renounced && matches!(op, Op::SetRoleAdmin { .. } | Op::TransferAdmin { .. } | Op::AcceptAdmin { .. } | Op::RenounceAdmin { .. } | Op::RemoveRoleAdmin { .. } | Op::RemoveRoleCount { .. } | Op::SeedRole { .. })
                 || (m.renounced && matches!(op, Op::Probe{kind, ..} if guard(case.target, *kind).roles.is_none()))
             {
                 "succeeded-after-renounce"
@@ -1174,6 +1201,21 @@ pub fn run(case: &Case, ctx: &mut Ctx) -> R {
                         }
                         None => ctx.class("remove_role_admin_absent_accepted"),
                     }
+                }
+                Effect::Seed(r, list) => {
+                    let mut seen = BTreeSet::new();
+                    for a in list {
+                        if !seen.insert(a) {
+                            ctx.class("seed_role_duplicate_in_list");
+                        }
+                        if !m.members[r].insert(a) {
+                            ctx.class("seed_role_names_current_member");
+                        } else {
+                            m.count_entry[r] = true;
+                            m.count_removed[r] = false;
+                        }
+                    }
+                    ctx.class("seed_role_ok");
                 }
                 Effect::RemoveRoleCount(r) => {
                     ll_ok = true;
@@ -1328,11 +1370,11 @@ pub fn property() -> Property {
     Property {
         id: "C06",
         rule: Box::leak(format!("{} {}", "case = (target in {harness Acl, example nft-access-control, example ownable}, start ledger, initial role-admin wiring and memberships applied through the \
-               public entry points, history of <=40 (thorough 80) ops grant/revoke/renounce_role/set_role_admin/transfer_admin/accept/renounce_admin/guarded probe/advance over 4 roles and \
+               public entry points, history of <=40 (thorough 80) ops grant/revoke/renounce_role/set_role_admin/transfer_admin/accept/renounce_admin/guarded probe/advance over 5 roles (one of them named by the EMPTY symbol, the library's \"no admin role\" placeholder) and \
                5+1 accounts, caller by model-relative selector, auth mode Exact/Drop/Swap/Tamper/Surplus; harness Acl only, ~10% of the history items: the admin-guarded clean-up entry points \
                remove_role_admin / remove_role_count (wiring remove_role_admin_no_auth / remove_role_accounts_count_no_auth) on state-relative roles (with/without admin role, emptied, populated, \
                without counter), follow-up grant/revoke by a holder of the removed admin role / the admin, re-grant after counter removal, singly or as short scripts; \
-               lowlevel_nontrivial = >=1 successful and >=1 refused clean-up call and >=1 later grant/revoke attempt on a cleaned role); non-trivial = >=1 successful revoke/renounce of a non-last index, >=1 successful \
+               harness Acl also: seed_role(role, list) = grant_role_no_auth over a list with duplicates / current members; lowlevel_nontrivial = >=1 successful and >=1 refused clean-up call and >=1 later grant/revoke attempt on a cleaned role); non-trivial = >=1 successful revoke/renounce of a non-last index, >=1 successful \
                grant by a role-admin holder who is not the admin and >=1 rejected privileged call (ownable: >=1 passed and >=1 rejected owner-guarded call; stacked-guards: only_owner / only_admin / only_role stacked with when_not_paused / when_paused in both orders on a harness contract, >=2 calls refused for a wrong or unauthorized principal while the pause gate was open and >=1 passed); distinct = distinct serialised case", super::c06b::RULE).into_boxed_str()),
         subs: vec![
             target_sub!("acl", Target::Acl, 1200, 20000),
@@ -1359,6 +1401,9 @@ pub fn property() -> Property {
             ("max_roles_boundary", 1, 1),
             // low-level clean-up entry points of the harness Acl (measured over seeds 0..3, quick scale 9)
             ("lowlevel_nontrivial", 15, 150),
+            ("seed_role_ok", 12, 120),
+            ("seed_role_duplicate_in_list", 12, 120),
+            ("seed_role_names_current_member", 20, 200),
             ("remove_role_admin_ok", 18, 180),
             ("remove_role_admin_refused_unauth", 30, 300),
             ("former_role_admin_refused", 8, 80),
